@@ -22,11 +22,6 @@ open Glom Glom.Mut Glom.C11 Glom.C12
     attribute / plain-segment steps only -/
 abbrev Hyps (env : MEnv) (orig : List Step) : Prop := C12.covered env orig = true
 
-theorem covered_parts {env : MEnv} {orig : List Step} (hy : Hyps env orig) :
-    C12.WF env = true ∧ classesOK env = true ∧ C01.wfSteps orig = true := by
-  simp only [Hyps, C12.covered, Bool.and_eq_true] at hy
-  exact ⟨hy.1.1, hy.1.2, hy.2⟩
-
 /-- **Facts obligation** (re-checked on every run against the tables regenerated from the AST of
     `Delete._del_one`): the `[` branch performs `del dest[arg]` and its `except` clause names
     classes covering **KeyError and IndexError**, the `.` branch performs `delattr` and catches
